@@ -5,8 +5,7 @@
  * Base case (first tick): previous pgscan 0, g = epoch (field initialisers) — see DESIGN.md §5 row 18.
  */
 #include "detector_stubs.h"
-static const str_t kPgscan = (str_t)2001;  /* file-scope constant "pgscan" (outside namespace Oomd: not extracted, ASSUMED) */
-#define str_t__from__char__(x) (x)
+/* kPgscan = "pgscan" is read from the file-scope constant in MemoryReclaim.cpp (STR_pgscan) */
 int64_t g_sum;
 uint64_t g_calls_stat;
 opt_umap_str_t_int64_t nondet_opt_umap(void);
@@ -30,7 +29,7 @@ mapit_pair_str_t_int64_t umap_str_t_int64_t__find(umap_str_t_int64_t m, str_t ke
   {
     g_found = nondet_pair();
     __CPROVER_assume(g_found.first == key && g_found.second >= 0 && g_found.second <= (1L << 40));
-    if (key == kPgscan) g_sum = g_sum + g_found.second;
+    if (key == STR_pgscan) g_sum = g_sum + g_found.second;
   }
   return it;
 }
